@@ -128,7 +128,9 @@ func KeysR(m interface{}) interface{} {
 // R records a read of map m at site (level-3 instrumentation) and returns m.
 func R[M ~map[K]V, K comparable, V any](m M, site string) M {
 	if sched.Current() != nil && m != nil {
-		sched.Access(*(*uintptr)(unsafe.Pointer(&m)), mapName(site), site, false, m)
+		a := *(*uintptr)(unsafe.Pointer(&m))
+		sched.Access(a, mapName(site), site, false, m)
+		sched.Did(memKey(a), "r", false)
 	}
 	return m
 }
@@ -136,7 +138,9 @@ func R[M ~map[K]V, K comparable, V any](m M, site string) M {
 // W records a write of map m at site and returns m.
 func W[M ~map[K]V, K comparable, V any](m M, site string) M {
 	if sched.Current() != nil && m != nil {
-		sched.Access(*(*uintptr)(unsafe.Pointer(&m)), mapName(site), site, true, m)
+		a := *(*uintptr)(unsafe.Pointer(&m))
+		sched.Access(a, mapName(site), site, true, m)
+		sched.Did(memKey(a), "w", true)
 	}
 	return m
 }
@@ -157,3 +161,5 @@ func mapName(site string) string {
 	}
 	return site
 }
+
+type memKey uintptr
